@@ -12,7 +12,9 @@ PID = "C10"
 BOUNDS = ("matrix {--to_bin, --to_cas, --to_dsk} x {append, no append} x pre-existing target {absent, empty, tool-written "
           "cassette, tool-written disk, raw binary, 1-8 SYMBOLIC bytes (the solver searches for content that is "
           "mis-recognised), cassette image >= 161,280 bytes} through assembler.main and file_util.main on the in-memory "
-          "host FS, plus pairs of consecutive invocations; the program's origin/operand symbolic")
+          "host FS, plus pairs of consecutive invocations; the program's origin/operand symbolic; further pre-existing "
+          "targets: formatted empty disk, disk with only deleted entries, well-formed disk with a byte >= $80 in a name, "
+          "disk and cassette written by the independent writers, raw bytes containing a tape header marker")
 OUTSIDE = "an empty existing file may be treated either way (not an image, but nothing to lose); the real host file system"
 ASSUMPTIONS = c06.ASSUMPTIONS
 
